@@ -12,7 +12,7 @@ ID = "C03"
 def make_plan(seed: int, tier: str, opts: dict) -> dict:
     r = random.Random(seed)
     wall = r.random() < opts.get("wall_p", 0.0)
-    spec = common.gen_supported_spec(r, max_nodes=4 if tier == "quick" else 5, tie_p=0.4)
+    spec = common.gen_supported_spec(r, max_nodes=4 if tier == "quick" else 6, tie_p=0.4)
     M = opts.get("episodes", 4)
     eps = []
     for j in range(M):
